@@ -63,9 +63,17 @@ def present(data, kind):
 
 
 def answer(fn, data):
+    kind = None
     if "@" in fn:
         fn, _, kind = fn.partition("@")
-        data = present(data, kind)
+        data = bytearray(data) if kind == "wiped" else present(data, kind)
+    if fn == "ripemd160" and isinstance(data, bytearray) and kind == "wiped":
+        # the digest object is made, THEN the caller's buffer is overwritten (a reused read buffer, a wiped secret): the
+        # digest is of what was passed when the object was made, as with hashlib (seed C19-e1 hashed lazily, by reference)
+        h = H.ripemd160(data)
+        for i in range(len(data)):
+            data[i] ^= 0xA5
+        return "x" + h.digest().hex()
     if fn == "ripemd160":
         return "x" + H.ripemd160(data).digest().hex()
     if fn == "hash160":
